@@ -129,14 +129,32 @@ theorem eq_symm (h : Heap) (a b : Quantity) : qeq h a b = qeq h b a := qeq_symm 
 theorem eq_trans {h : Heap} {a b c : Quantity} (h1 : qeq h a b = true) (h2 : qeq h b c = true) :
     qeq h a c = true := qeq_trans h1 h2
 
+/-- **every cell of every live quantity is a `[unit, exp]` list of the quantity's own** (never the
+caller's tuple or list): whatever form a request had, after any history -/
+theorem live_cells_are_lists (db : Db) (g : Guard) (ops : List Op) (i : Nat) (q : Quantity)
+    (hq : (reach db g ops).st.objs[i]? = some q) :
+    ∃ cs, readMap (reach db g ops).st.heap q.map = some cs ∧ ∀ kc ∈ cs, kc.2.frozen = false :=
+  live_cells (reachable_invariant db g ops).inv hq
+
 /-- **on every reachable state two quantities are equal exactly when they have the same composing map
-(categories, units, exponents) and caption** — although `__eq__` also distinguishes a list cell from
-a tuple cell, interning makes that unobservable; requests that resolve differently give unequal
-quantities -/
+(categories, units, exponents, in order) and caption**: `__eq__` would tell a list cell from a tuple
+cell, but live quantities only hold lists; requests that resolve differently give unequal quantities -/
 theorem obtain_eq_iff (db : Db) (g : Guard) (ops : List Op) (i j : Nat) (a b : Quantity)
     (ha : (reach db g ops).st.objs[i]? = some a) (hb : (reach db g ops).st.objs[j]? = some b) :
-    qeq (reach db g ops).st.heap a b = true ↔ contentEq (reach db g ops).st.heap a b = true :=
-  ⟨qeq_contentEq, fun h => (contentEq_qeq (reachable_invariant db g ops).inv ha hb h).1⟩
+    qeq (reach db g ops).st.heap a b = contentEq (reach db g ops).st.heap a b :=
+  live_qeq_iff (reachable_invariant db g ops).inv ha hb
+
+/-- **products, quotients and sums that hit a cached quantity never raise the tuple `TypeError`**
+(`'tuple' object does not support item assignment`): on the working copies of any two live
+quantities neither the unit matching (`unit_exp[0] = …`) nor the merge of the exponents
+(`unit_exp1[1] = …`) can fail that way, whatever form the requests that created them had -/
+theorem arith_no_tuple_error (db : Db) (g : Guard) (ops : List Op) (i1 i2 : Nat) (q1 q2 : Quantity)
+    (hq1 : (reach db g ops).st.objs[i1]? = some q1) (hq2 : (reach db g ops).st.objs[i2]? = some q2)
+    {h1 h2 : Heap} {m1 m2 : Map}
+    (hc1 : copyMap (reach db g ops).st.heap q1.map = some (h1, m1)) (hc2 : copyMap h1 q2.map = some (h2, m2)) :
+    matchQuantities db h2 m1 m2 ≠ .error .type ∧
+    ∀ h3, matchQuantities db h2 m1 m2 = .ok h3 → ∀ div, mergePass div h3 m1 m2 ≠ .error .type :=
+  copies_no_type (reachable_invariant db g ops).inv hq1 hq2 hc1 hc2
 
 /-- **requests that resolve to the same category, unit and caption return equal quantities; requests
 that resolve differently return unequal ones**: for two `(category, unit, caption)` entries of the
@@ -238,6 +256,15 @@ example : (reach poscDb exG exOps2).results = [some 0, some 1] ∧
         pure (qeq (reach poscDb exG exOps2).st.heap a b)) = some true ∧
     (match resolveSimpleUnit poscDb sVolume sLegacy with | .ok u => u == sMcf | .error _ => false) = true := by
   decide +kernel
+
+-- the tuple form no longer poisons the cache: (m, 1)(s, -1) as TUPLES, then (that) * cm succeeds
+def exOps3 : List Op := [
+  .obtain (.seq [⟨sM, 1, true⟩, ⟨sS, -1, true⟩]) (.seq [sLength, sTime] true) none,
+  .obtain (.str sCm) (.str sLength) none,
+  .new false (.ref 0) (.ref 1)]
+example : (reach poscDb exG exOps3).results = [some 0, some 1, some 2] ∧
+    ((reach poscDb exG exOps3).st.objs[2]?.map (view (reach poscDb exG exOps3).st.heap)) =
+      some (some [(sLength, ⟨sM, 2, false⟩), (sTime, ⟨sS, -1, false⟩)], 0, true) := by decide +kernel
 
 end examples
 
